@@ -26,6 +26,10 @@ namespace Clipper2Lib { namespace verif {
   // pts = the points appended to the raw offset path by this call (x0, y0, x1, y1, ...)
   typedef void (*OffsetFn)(const long long* v, const long long* pts, int npts);
   inline thread_local OffsetFn offset_fn = nullptr;
+  // one call per intersection processed by ProcessIntersectList (before the two edges are swapped in the AEL):
+  // v = { e1.bot.x, e1.bot.y, e1.top.x, e1.top.y, e2.bot.x, e2.bot.y, e2.top.x, e2.top.y, pt.x, pt.y, bottom y of the scanbeam }
+  typedef void (*IntersectFn)(const long long* v);
+  inline thread_local IntersectFn intersect_fn = nullptr;
 }}
 #define CLIPPER2_VERIF_YIELD(site) ::Clipper2Lib::verif::Yield(site)
 #else
